@@ -14,7 +14,7 @@ def run(ctx):
     if ctx.tier == "quick":
         cfgs = [(2, 3, [4095, 4096, 4097, 9000]), (3, 1, [4096])]
     else:
-        cfgs = [(3, 3, [4095, 4096, 4097, 9000])]
+        cfgs = [(3, 2, [4096, 9000]), (2, 3, [4095, 4096, 4097, 9000])]
     storagecheck.run(ctx, cfgs, noise=False)
     # ---- code -> spec: random byte contents validated by Trace_Storage ----
     import os
